@@ -556,7 +556,9 @@ PROPS["C10"] = dict(
          "destroying the pool with jobs pending, or by terminate() then destruction. terminate: terminate() from a "
          "job, from an outside thread, or from outside while every worker is idle, with one or two "
          "loop_until_terminate() waiters. rendezvous (serial): k <= p jobs that wait for each other, enqueued back to "
-         "back from outside or from a job. Every job closure captures an object by value whose destructor records a ticket: tearing the closure down is part of the "
+         "back from outside or from a job. burst (real threads): 400 rounds of p tiny jobs writing plain slots that the "
+         "waiter reads right after loop_until_empty() (the harness's own atomics are relaxed, so TSan judges the pool's "
+         "synchronisation alone). Every job closure captures an object by value whose destructor records a ticket: tearing the closure down is part of the "
          "job. Checked from the recorded tickets: no job twice, every job enqueued before "
          "a loop_until_empty() call done at its return, the waiter's interval not covered by pending jobs, done() and "
          "plain writes after a quiet return, no job running when loop_until_terminate()/~ThreadPool return; dsched "
